@@ -431,7 +431,7 @@ def special_layout(g, which):
         rr = r.choice([None, '1.09'])
         cfg = Cfg(level=r.choice([1, 3]), joliet=r.choice([None, 3]), rr=rr)
         ops = []
-        ndup = r.choice([0, 0, 1, 2])
+        ndup = r.choice([0, 1, 2, 2])
         for _k in range(ndup if r.random() < 0.5 else 0):
             ops.append({'op': 'duplicate_pvd'})
         early = len(ops) > 0
@@ -450,12 +450,52 @@ def special_layout(g, which):
         if not early:
             for _k in range(ndup):
                 ops.append({'op': 'duplicate_pvd'})
-        if r.random() < 0.3:
+        if r.random() < 0.4:
             ops.append({'op': 'reopen', 'reuse': False})
+            for k in range(r.choice([0, 2, 40])):
+                ops.append(dict({'op': 'add_directory', 'iso_path': '/E%07d' % k}, **({'rr_name': 'e%07d' % k} if rr else {})))
         leafs = [m for m in made if flat or m not in made[:8]]
         r.shuffle(leafs)
         for m in leafs[:r.choice([0, 1, 3, 6, 20])]:
             ops.append({'op': 'rm_directory', 'iso_path': m})
+        return cfg, ops
+    if which == 'reloc-spill':
+        # the directory at depth 7 packed to the brim (probing the live object for its length), so
+        # that the placeholder of a relocated child (or one further entry) is the record that takes
+        # it into another sector
+        cfg = g.cfg(require=lambda c: c.rr is not None and c.level < 4)
+        h = History(cfg, r.randrange(1 << 30), 'std')
+        path = ''
+        for d in range(7):
+            path += '/P%d' % d
+            h.apply({'op': 'add_directory', 'iso_path': path, 'rr_name': 'p%d' % d})
+        sectors = r.choice([1, 1, 2])
+
+        def dirlen():
+            try:
+                return h.sess.iso.get_record(iso_path=path).data_length
+            except Exception:
+                return None
+        k = 0
+        for nmlen in (r.choice([8, 30, 90]), 20, 8, 3, 1):
+            while k < 200 and dirlen() is not None:
+                op = {'op': 'add_fp', 'cid': 8600 + k, 'length': r.choice([0, 5]), 'iso_path': '%s/F%03d.;1' % (path, k), 'rr_name': ('f%03d' % k + 'n' * 200)[:max(4, nmlen)]}
+                k += 1
+                if not h.apply(op).ok:
+                    break
+                if dirlen() is not None and dirlen() > 2048 * sectors:
+                    h.apply({'op': 'rm_file', 'iso_path': op['iso_path']})
+                    break
+        deep = {'op': 'add_directory', 'iso_path': path + '/DEEP', 'rr_name': r.choice(['deep', 'deep-' + 'd' * 60])}
+        if cfg.udf and r.random() < 0.5:
+            deep['udf_path'] = '/deep'
+        h.apply(deep)
+        if r.random() < 0.5:
+            h.apply({'op': 'add_fp', 'cid': 8590, 'length': 77, 'iso_path': path + '/DEEP/IN.;1', 'rr_name': 'in'})
+        if r.random() < 0.3:
+            h.apply({'op': 'rm_directory', 'iso_path': path + '/DEEP'} if not deep.get('udf_path') else {'op': 'rm_directory', 'iso_path': path + '/DEEP', 'udf_path': '/deep'})
+        ops = [dict(o) for o in h.ops]
+        h.sess.close()
         return cfg, ops
     if which == 'deep-reloc':
         # Rock Ridge relocation: directories to depth 8..12, same-named twins, custom relocation name
@@ -473,4 +513,4 @@ def special_layout(g, which):
 
 
 SPECIALS = ['exact-fill', 'udf-big-dir', 'udf-exact-fill', 'exact-fill-root', 'exact-fill-multi', 'exact-fill-spill',
-            'shrink-subdir', 'grow-subdir', 'deep-reloc', 'joliet-exact-fill', 'many-dirs']
+            'shrink-subdir', 'grow-subdir', 'deep-reloc', 'joliet-exact-fill', 'many-dirs', 'reloc-spill']
